@@ -81,7 +81,7 @@ func (w *c01World) wait() string {
 		}
 		time.Sleep(200 * time.Microsecond)
 	}
-	if os.Getenv("C01_DEBUG") != "" {
+	if os.Getenv("C01_DEBUG") == "2" {
 		for _, wk := range w.liveWorkers() {
 			id, missing, in := wk.w.Operator.VerifCheckpointState()
 			fmt.Fprintf(os.Stderr, "NQ: worker %d opIdx %d srIdx %d ckpt=%d missing=%v inprogress=%v\n", wk.num, wk.opIdx, wk.srIdx, id, missing, in)
@@ -210,6 +210,10 @@ func (w *c01World) ckpt(seed int) string {
 	}
 	for i := 0; i < n; i++ {
 		if !w.releaseAck('o', r.Intn(8), c01GateGrace*2) {
+			if os.Getenv("C01_DEBUG") != "" {
+				buf := make([]byte, 1<<22)
+				os.WriteFile("/tmp/c01/stacks.txt", buf[:runtime.Stack(buf, true)], 0o644)
+			}
 			break
 		}
 	}
@@ -456,6 +460,8 @@ func c01Impl(c lib.Case) []string {
 				c01Count("handler_invocations", 1)
 			case strings.HasPrefix(t, "R:"):
 				c01Count("deployments", 1)
+			case strings.HasPrefix(t, "L:"):
+				c01Count("deployments_reusing_a_live_node", 1)
 			case strings.HasPrefix(t, "p:"):
 				c01Count("published_checkpoints", 1)
 			case strings.HasPrefix(t, "k:"):
@@ -575,7 +581,7 @@ func c01Gen1(r *lib.Rng, tier string, idx int) lib.Case {
 	g := &c01Gen{r: r, n: n, nsplits: nsplits, nkeys: nkeys}
 	g.add("boot")
 	g.refill()
-	rounds := r.Range(2, 4)
+	rounds := r.Range(2, 5)
 	if tier == "thorough" {
 		rounds = r.Range(2, 7)
 	}
@@ -616,6 +622,12 @@ func c01Gen1(r *lib.Rng, tier string, idx int) lib.Case {
 				}
 			}
 			g.live = nil
+			if r.Chance(1, 2) { // the new job runs with a different worker count: state is repartitioned
+				g.n = lib.Pick(r, []int{1, 2, 3})
+				if g.n > kgc {
+					g.n = kgc
+				}
+			}
 			g.add("killjob %d 1", g.n)
 			g.refill()
 		case 8: // failure with no checkpoint since the last restart
@@ -625,9 +637,29 @@ func c01Gen1(r *lib.Rng, tier string, idx int) lib.Case {
 			g.killAll()
 			g.refill()
 			g.add("restart 0")
-		case 9: // failure-free round
-			g.add("ckpt %d", r.Intn(1000))
-			g.add("wait")
+		case 9: // failure-free rounds; the publication of the first is still in flight when the second completes
+			if r.Bool() {
+				g.add("ckpt %d", r.Intn(1000))
+				g.add("wait")
+			} else {
+				for k := 0; k < 2; k++ {
+					g.add("tick")
+					for i := 0; i < g.n; i++ {
+						g.add("rack %d", r.Intn(4))
+					}
+					for i := 0; i < g.n; i++ {
+						g.add("oack %d", r.Intn(4))
+					}
+					g.feeds(0, 2, 4)
+				}
+				g.add("pub %d", r.Intn(2))
+				g.add("pub 0")
+				if r.Bool() {
+					g.killAll()
+					g.refill()
+					g.add("restart 0")
+				}
+			}
 		}
 	}
 	g.feeds(0, 2, 5)
@@ -654,6 +686,53 @@ func c01Fixed() []lib.Case {
 	}
 }
 
+// regression schedules of repaired defects and, when it is listed as open, the witness of finding D39
+func c01Regressions() []lib.Case {
+	cases := []lib.Case{
+		// D40: a checkpoint of the previous deployment is published after the redeploy; the rejected retain request
+		// must not make the next one destroy the WAL of the checkpoint the job restores from
+		{Header: c01Header(1, 8, 1, 2, 2, 2, 0), Tags: []string{"D40"}, Ops: []string{
+			"boot", "feed 0 0,1,0", "ckpt 1", "wait", "kill 0", "restart 0", "feed 0 1,0,1", "tick", "rack 0", "oack 0", "kill 1",
+			"restart 0", "feed 0 0,0", "ckpt 2", "feed 0 1", "ckpt 3", "wait", "kill 2", "restart 0", "feed 0 1,1", "wait", "probe", "end"}},
+		// D40: "retain only 2" arrives after the operator took checkpoint 3; checkpoint 3 must stay restorable
+		{Header: c01Header(1, 8, 1, 2, 2, 2, 0), Tags: []string{"D40"}, Ops: []string{
+			"boot", "feed 0 0,1,0", "ckpt 1", "feed 0 1,1", "tick", "rack 0", "oack 0", "feed 0 0,1", "wait", "tick", "rack 0", "oack 0",
+			"pub 0", "pub 0", "feed 0 0", "wait", "kill 0", "restart 0", "feed 0 1", "wait", "probe", "end"}},
+		// D41: after scaling out 1 → 2 both operators restored from the same old checkpoint; when it becomes obsolete
+		// both destroy its WAL files, the second removal must not make that operator's next checkpoint fail
+		{Header: c01Header(1, 8, 1, 2, 2, 4, 0), Tags: []string{"D41"}, Ops: []string{
+			"boot", "feed 0 0,1,2,3,0,1", "wait", "ckpt 1", "killjob 2 1", "feed 0 1,2,3,0", "wait", "ckpt 2", "feed 0 0,1", "ckpt 3",
+			"wait", "feed 0 2,3", "wait", "kill 1", "kill 2", "restart 0", "wait", "probe", "end"}},
+		// rescale 2 → 3 → 1 → 2 through job restarts
+		{Header: c01Header(2, 8, 3, 2, 2, 5, 0), Tags: []string{"rescale"}, Ops: []string{
+			"boot", "feed 0 0,1,2,3,4,0,1", "feed 1 4,3,2,1,0", "feed 2 2,2,3,3", "wait", "ckpt 3", "feed 0 1,1", "feed 1 2,2", "wait",
+			"killjob 3 1", "wait", "feed 0 0,4", "feed 2 1,3", "wait", "ckpt 8", "feed 1 0,1,2,3,4", "wait", "killjob 1 1", "wait", "feed 0 3",
+			"wait", "ckpt 2", "killjob 2 1", "feed 2 0,1,2,3,4", "wait", "probe", "end"}},
+	}
+	for _, k := range lib.LoadKnown(c01VerifRoot()) {
+		if k.Property == "C01" && k.ID == "D39" && k.Status == "open" {
+			cases = append(cases,
+				// every heartbeat expires although nobody died: the job redeploys the same live worker process
+				lib.Case{Header: c01Header(1, 256, 1, 4, 1, 4, 0), Tags: []string{"D39"}, Ops: []string{"boot", "restart 0", "probe", "end"}},
+				// one Deploy request of the redeploy fails once; the retry deploys nodes that were just deployed
+				lib.Case{Header: c01Header(3, 256, 3, 4, 3, 5, 0), Tags: []string{"D39"}, Ops: []string{"boot", "kill 0", "kill 1", "kill 2", "restart 2", "feed 0 3,2,3,4,2,1,1", "ckpt 770", "wait", "probe", "end"}})
+		}
+	}
+	return cases
+}
+
+func c01VerifRoot() string {
+	for i, a := range os.Args {
+		if (a == "-verif" || a == "--verif") && i+1 < len(os.Args) {
+			return os.Args[i+1]
+		}
+		if strings.HasPrefix(a, "-verif=") {
+			return strings.TrimPrefix(a, "-verif=")
+		}
+	}
+	return "/verif"
+}
+
 func propC01() *lib.Prop {
 	lib.CaseTimeout = 120 * time.Second
 	return &lib.Prop{
@@ -669,7 +748,7 @@ func propC01() *lib.Prop {
 		},
 		Gen:   c01Gen1,
 		Impl:  c01Impl,
-		Fixed: func(tier string) []lib.Case { return c01Fixed() },
+		Fixed: func(tier string) []lib.Case { return append(c01Fixed(), c01Regressions()...) },
 		Extra: func() map[string]any {
 			c01StatsMu.Lock()
 			defer c01StatsMu.Unlock()
